@@ -594,6 +594,15 @@ def random_schedules(rng, n, flavour, max_steps=40):
                 return rng.choice([{"do": "Cmd", "x": "Pause"}, {"do": "Cmd", "x": "Resume"}, {"do": "Cmd", "x": "Resume"},
                                    {"do": "Inject", "l": rng.randrange(nl), "kind": rng.choice(["fatal", "conn", "enfile", "reset"])},
                                    {"do": "Advance", "ms": rng.choice([100, 300, 510, 600])}])
+            if flavour == "mix":
+                # everything at once: faults and replacements, commands, accept errors and back-off time, application
+                # back-pressure (interplay of mechanisms the other flavours exercise one at a time)
+                return rng.choice([{"do": "Kill", "i": rng.randrange(w)}, {"do": "Replace", "i": rng.randrange(w)},
+                                   {"do": "Cmd", "x": "Pause"}, {"do": "Cmd", "x": "Resume"}, {"do": "Cmd", "x": "Resume"},
+                                   {"do": "Inject", "l": rng.randrange(nl), "kind": rng.choice(["fatal", "conn", "enfile", "reset"])},
+                                   {"do": "Advance", "ms": rng.choice([100, 300, 510, 600])},
+                                   {"do": "PushReady", "i": rng.randrange(w), "t": rng.randrange(nl), "a": rng.choice([0, 0, 2])},
+                                   {"do": "WorkerPoll", "i": rng.randrange(w)}, {"do": "Finish", "c": rng.randrange(nconn)}])
             return {"do": "WorkerPoll", "i": rng.randrange(w)}
 
         for _ in range(rng.randint(8, max_steps)):
@@ -607,9 +616,9 @@ def random_schedules(rng, n, flavour, max_steps=40):
                 steps.append({"do": "Settle"})
             else:
                 steps.append(env_action())
-        if flavour == "cmd":
+        if flavour in ("cmd", "mix"):
             steps += [{"do": "Cmd", "x": "Resume"}, {"do": "Advance", "ms": 600}]
-        if flavour == "fault":
+        if flavour in ("fault", "mix"):
             steps += [{"do": "Settle"}] + [{"do": "Replace", "i": i} for i in range(w)]
         steps += [{"do": "Settle"}] + [{"do": "WorkerPoll", "i": i} for i in range(w)] + [{"do": "Settle"}]
         out.append({"cfg": {"W": w, "Limit": limit, "listeners": listeners}, "steps": steps,
